@@ -451,7 +451,9 @@ class DocumentationAggregator(CMakeListener):
 
         :param docstring: Cleaned docstring.
         """
-        params = [param.getText() for param in ctx.single_argument()]  # Extract parameters
+        # Extract parameters in source order, parenthesized groups included
+        params = [DocumentationAggregator.argument_text(child) for child in ctx.children
+                  if isinstance(child, (CMakeParser.Single_argumentContext, CMakeParser.Compound_argumentContext))]
 
         if len(params) < 2:
             pretty_text = docstring
